@@ -68,6 +68,14 @@ type Session struct {
 	ClientAlerts, ServerAlerts [][]byte
 	ExplicitIVs                [][]byte // CBC explicit IVs / GCM explicit nonces, client direction then server
 	Notes                      []string
+	Protected                  []RecInfo // every protected record in wire order
+}
+
+// RecInfo describes one protected record after independent decryption.
+type RecInfo struct {
+	FromClient bool
+	Type       byte
+	PlainLen   int
 }
 
 type dirState struct {
@@ -172,6 +180,7 @@ func Decode(recs []Rec, encKey *big.Int, master []byte) (*Session, error) {
 				return s, fmt.Errorf("record %d (%s, type %d): %v", i, map[bool]string{true: "client", false: "server"}[r.FromClient], r.Type, err)
 			}
 			body = pt
+			s.Protected = append(s.Protected, RecInfo{r.FromClient, r.Type, len(pt)})
 		}
 		switch r.Type {
 		case 20: // change cipher spec
